@@ -215,6 +215,7 @@ def parallel_scenario(ck, scn, scripts, cpu, schedules, tag, ref=None, local='ba
         ck.case(nontrivial_key=(tag, json.dumps(scn, sort_keys=True), cpu, str(schedule)),
                 sample={'runs': len(scn['runs']), 'T': obs.get('T'), 'steps': obs['steps'][:10]})
         compare_with_batch(ck, inp, ref, obs, 'parallel', n127)
+        check_chunks(ck, inp, scn, obs, cpu)
         if not n127:
             picks = [st[1] for st in obs['steps']]
             op = c04.session_op('c11.exec', scn, sess, obs['order'])
@@ -222,6 +223,28 @@ def parallel_scenario(ck, scn, scripts, cpu, schedules, tag, ref=None, local='ba
             # runs whose build fails never start a process: the half-step system (no builds) is not asked about them
             op['active'] = [i for i in obs['order'] if obs['loaded'][i][0] < scn['runs'][i]['N'] and i not in bf]
             c04.queue_of(ck).add(op, lambda ans, inp=inp, obs=obs: compare_exec(ck, inp, obs, ans, bf))
+
+
+def check_chunks(ck, inp, scn, obs, cpu):
+    """work distribution: what acquire_work handed out vs RB.Sched.handout; every non-exclusive run exactly once"""
+    if obs.get('chunks') is None:
+        return
+    par = [i for i in obs['order'] if not scn['runs'][i].get('excl', True)
+           and obs['loaded'][i][0] < scn['runs'][i]['N']]
+    handed = sorted(i for c in obs['chunks'] for i in c)
+    ck.count('chunks:%d' % len(obs['chunks']))
+    if handed != sorted(par):
+        ck.oracle_fail('every_run_handed_to_one_worker', inp,
+                       {'non_exclusive_runs': par, 'chunks': obs['chunks'], 'worker_threads': obs.get('T')},
+                       signature={'cpu_count': cpu, 'nothing_handed_out': not obs['chunks']})
+    op = {'op': 'c11.chunks', 'cpu': cpu, 'remaining': par}
+
+    def cmp(ans, obs=obs):
+        if ans['chunks'] != obs['chunks']:
+            ck.disagree('c11.chunks: ParallelScheduler.acquire_work vs RB.Sched.handout', inp,
+                        {'chunks': obs['chunks'], 'T': obs.get('T')}, ans,
+                        ['RB.Sched.c11_every_run_handed_out', 'RB.Sched.c11_chunks_partition'])
+    c04.queue_of(ck).add(op, cmp)
 
 
 def compare_exec(ck, inp, obs, ans, skip=()):
@@ -321,7 +344,7 @@ def run(ck):
     rng = ck.rng
     ck.rule = ('%d scenarios of 2-5 runs (succeeding, flaky and retried, failing, failing at the last invocation; shared '
                'executables) x {batch, round-robin, random x %d recorded choice streams}; parallel scheduler with 2-12 '
-               'non-exclusive runs (some with exclusive ones), batch / round-robin / random as thread-local scheduler, cpu_count 5/8/16 (2, 3, 6 worker threads), %s sampled release '
+               'non-exclusive runs (some with exclusive ones), batch / round-robin / random as thread-local scheduler, cpu_count 2/3/5/8/16 (1, 1, 2, 3, 6 worker threads), %s sampled release '
                'schedules under the thread controller, %s; free-running parallel sessions with a yielding data-file '
                'object; a third of the sequential and half of the parallel scenarios have executor builds (shared) and suite builds (private), succeeding and failing; scenarios with a 127 outcome for the recorded finding. non-trivial = more than one run, distinct by '
                'scenario and schedule'
@@ -360,7 +383,7 @@ def run(ck):
         if i % 2 == 1:
             add_builds(rng, scn)
             ck.count('parallel-scenario-with-builds')
-        cpu = rng.choice([5, 8, 8, 16])
+        cpu = rng.choice([2, 3, 5, 8, 8, 16])
         schedules = [[rng.randrange(12) for _ in range(200)] for _ in range(per)]
         # the thread-local scheduler of the workers: batch, round-robin or random
         parallel_scenario(ck, scn, scripts, cpu, schedules, 'par', local=['batch', 'round-robin', 'random'][i % 3])
